@@ -40,7 +40,7 @@ PANICKING = [
     (r'^alloc::string::ToString::to_string$|^<T as alloc::string::ToString>::to_string$', 'to-string'),
 ]
 # documented as panicking only on capacity overflow / allocation failure (declared assumption, not obligations)
-CAPACITY_ONLY = re.compile(r'^alloc::(vec::Vec|string::String)::<?.*>?::(push|push_str|with_capacity|extend|reserve|insert_str)$|^alloc::string::String::(push|push_str|with_capacity)$|'
+CAPACITY_ONLY = re.compile(r'^alloc::(vec::Vec|string::String)::<?.*>?::(push|push_str|with_capacity|extend|reserve|insert_str)$|^alloc::string::String::(push|push_str|with_capacity|reserve|reserve_exact|extend)$|'
                            r'^core::iter::(traits::iterator::)?Iterator::(enumerate|sum|count|skip|map|collect|nth|cloned|step_by)$|^alloc::str::<impl str>::(replace|to_lowercase|to_uppercase|repeat)$|'
                            r'^alloc::vec::Vec::<.*>::(push|with_capacity|extend_from_slice|to_vec)$|^alloc::fmt::format$|^alloc::slice::<impl \[T\]>::to_vec$')
 
